@@ -1460,13 +1460,90 @@ class C30Remove(Base):
         super().__init__(case, phase)
         self.cur = None
         self.db_checks = []     # (iteration, target, removed flows)
+        self.hist_checks = []
+        self.hist_before = None
 
     def on_event(self, ev):
         if ev['k'] == 'REMOVE_IN':
             self.cur = ev
+            # committed history of every task before the command
+            self.hist_before = self.read_history()
         elif ev['k'] == 'REMOVE_OUT' and self.cur is not None:
             rin, self.cur = self.cur, None
             self.judge(rin, ev)
+            self.hist_checks.append(
+                [self.drv.bus.it, self.hist_before, set(rin['ids']),
+                 set(rin['flow_nums']),
+                 {t['id']: set(t['flows']) for t in rin['pool']}])
+
+    def read_history(self):
+        """{table: {'P/N': set of flow numbers with a row}} from the
+        committed private DB (None if unreadable)."""
+        import json as _json
+        import sqlite3 as _sq
+        path = self.drv.schd.workflow_db_mgr.pri_path
+        out = {}
+        try:
+            con = _sq.connect(f'file:{path}?mode=ro', uri=True, timeout=5)
+        except _sq.Error:
+            return None
+        try:
+            for table in ('task_states', 'task_outputs'):
+                d = out.setdefault(table, {})
+                for cyc, name, fn in con.execute(
+                        f'SELECT cycle, name, flow_nums FROM {table}'):
+                    try:
+                        d.setdefault(f'{cyc}/{name}', set()).update(
+                            _json.loads(fn))
+                    except ValueError:
+                        pass
+        except _sq.Error:
+            return None
+        finally:
+            con.close()
+        return out
+
+    def check_bystander_history(self, drv):
+        """After the iteration's commit: history rows of tasks that were
+        not targets lose at most the flows in which a child was removed."""
+        todo = [c for c in self.hist_checks if c[0] <= drv.bus.it]
+        if not todo:
+            return
+        self.hist_checks = [c for c in self.hist_checks if c[0] > drv.bus.it]
+        now = self.read_history()
+        if now is None:
+            return
+        # several removals executed in one iteration (commands, and the
+        # removals a group trigger does) are committed together
+        all_targets = set()
+        for c in todo:
+            all_targets |= c[2]
+        before = todo[0][1]
+        if before is None:
+            return
+        for table, rows in before.items():
+            for tid, flows in rows.items():
+                if tid in all_targets:
+                    continue
+                self.n['bystander_history_checks'] += 1
+                lost = flows - now.get(table, {}).get(tid, set())
+                if not lost:
+                    continue
+                # a child stood down by a removal may lose the flows it
+                # was removed from (its own flows, within that command's
+                # selection)
+                allowed = set()
+                for _it, _b, _t, fl, pool_flows in todo:
+                    mine = pool_flows.get(tid, set())
+                    allowed |= (mine & fl) if fl else mine
+                if lost - allowed:
+                    self.v(f'bystander-history-erased:{table}',
+                           f'{tid}: {table} rows for flows '
+                           f'{sorted(lost - allowed)} disappeared during '
+                           f'the removal of {sorted(all_targets)} (flow '
+                           f'selections {[sorted(c[3]) for c in todo]}; it '
+                           f'could lose {sorted(allowed)})',
+                           {'before': sorted(flows)})
 
     def judge(self, rin, rout):
         gt = self.gt
@@ -1593,6 +1670,7 @@ class C30Remove(Base):
                            {'before': b, 'after': a})
 
     def after_iter(self, drv, pool_snap):
+        self.check_bystander_history(drv)
         # history rows: after the iteration's DB commit
         todo = [c for c in self.db_checks if c[0] <= drv.bus.it]
         if not todo:
